@@ -36,7 +36,9 @@ prop("C01",
      runs=[dict(name="h_str", sources=["harness/h_str.c"], profile="asan", wraps=["read"],
                 args={"quick": ["--L=3", "--sigma=3"], "thorough": ["--L=5", "--sigma=4"]}),
            dict(name="h_ustr", sources=["harness/h_str.c"], profile="asan", wraps=["read"], cflags=["-DUSTR"],
-                args={"quick": ["--L=3", "--sigma=3"], "thorough": ["--L=5", "--sigma=4"]})],
+                args={"quick": ["--L=3", "--sigma=3"], "thorough": ["--L=5", "--sigma=4"]}),
+           # plain -O2 build: texts whose lengths are 2^31 and more apart
+           dict(name="h_str_huge", sources=["harness/h_str.c"], profile="plain2", wraps=["read"], args={"quick": ["--only=huge", "--workers=2", "--hang-cpu=120"], "thorough": ["--only=huge", "--workers=2", "--hang-cpu=120"]})],
      deadline={"quick": 200, "thorough": 3000})
 
 
@@ -103,7 +105,10 @@ prop("C12",
            dict(name="h_tokens_hb89", binary="h_tokens", sources=["harness/h_tokens.c"], profile="asan", args={"quick": ["--N=6", "--hb=0x89"], "thorough": ["--N=7", "--hb=0x89"]}),
            # the second letter replaced by the white-space characters a hand-written blank test forgets: vertical tab, form feed
            dict(name="h_tokens_hb0B", binary="h_tokens", sources=["harness/h_tokens.c"], profile="asan", args={"quick": ["--N=6", "--hb=0x0B"], "thorough": ["--N=7", "--hb=0x0B"]}),
-           dict(name="h_tokens_hb0C", binary="h_tokens", sources=["harness/h_tokens.c"], profile="asan", args={"quick": ["--N=5", "--hb=0x0C"], "thorough": ["--N=7", "--hb=0x0C"]})],
+           dict(name="h_tokens_hb0C", binary="h_tokens", sources=["harness/h_tokens.c"], profile="asan", args={"quick": ["--N=5", "--hb=0x0C"], "thorough": ["--N=7", "--hb=0x0C"]}),
+           # ... and by control characters that are NOT white space (below the space character, and DEL): they are letters like any other
+           dict(name="h_tokens_hb01", binary="h_tokens", sources=["harness/h_tokens.c"], profile="asan", args={"quick": ["--N=5", "--hb=0x01"], "thorough": ["--N=7", "--hb=0x01"]}),
+           dict(name="h_tokens_hb1F", binary="h_tokens", sources=["harness/h_tokens.c"], profile="asan", args={"quick": ["--N=4", "--hb=0x1F"], "thorough": ["--N=6", "--hb=0x1F"]})],
      deadline={"quick": 200, "thorough": 3000})
 
 
